@@ -63,8 +63,10 @@ def enc_frame_z(fr):
 
 def payload_classes(n, rng):
     res = [0x7E, 0x7D, 0x11, 0x13, 0x18, 0x1A]
+    # the last class: reserved on the WIRE (after randomisation), so that every data byte is escaped -- the stuffed
+    # frame is about twice as long as the frame itself
     return [bytes(n), bytes(res[i % 6] for i in range(n)), bytes(i % 256 for i in range(n)),
-            bytes(rng.randrange(256) for _ in range(n))]
+            bytes(rng.randrange(256) for _ in range(n)), bytes(res[i % 6] ^ ashref.SEQ[i % 256] for i in range(n))]
 
 
 class Check(PropertyCheck):
@@ -76,7 +78,7 @@ class Check(PropertyCheck):
     shard = 250
     rule = ("kinds: encode (to_bytes), parse (parse_frame on unstuffed bytes), stuff, unstuff, write (_write_frame on a fake "
             "transport), crc (binascii.crc_hqx). Frames: all control-field values of every class, all 256 reset codes, payload "
-            "lengths 0..200 in four content classes (zeros, all reserved bytes, ramp, random); parse inputs: all 256 control bytes "
+            "lengths 0..200 in five content classes (zeros, all reserved bytes, ramp, random, reserved on the wire i.e. after randomisation); parse inputs: all 256 control bytes "
             "x body lengths, truncations, all 1- and 2-bit corruptions of short frames; non-trivial = not the empty input; "
             "distinct by (kind, input)")
     assumptions = ["binascii.crc_hqx (C library) is compared with the bitwise CRC on every case, not verified"]
@@ -105,7 +107,7 @@ class Check(PropertyCheck):
         step = 1 if tier == "thorough" else 1
         for n in range(0, 201, step):
             cls = payload_classes(n, rng)
-            pick = cls if (tier == "thorough" or n % 8 == 0 or n > 190) else [cls[n % 4]]
+            pick = cls if (tier == "thorough" or n % 8 == 0 or n > 190) else [cls[n % 5]]
             for p in pick:
                 frames.append(("DATA", rng.randrange(8), rng.randrange(2), rng.randrange(8), p))
         frames.append(("DATA", 7, 1, 7, bytes(rng.randrange(256) for _ in range(256))))
